@@ -32,6 +32,13 @@ pub const ENTRIES: &[&str] = &[
     "delete_by_keypath",
     "traverse_check_string",
     "concat",
+    "array_values/object_each/object_keys",
+    "type_of/array_length/get_by_index/get_by_name",
+    "array_distinct/array_insert/object_insert",
+    "compare(text,text)",
+    "parse_lazy_value/to_value",
+    "to_serde_json_object",
+    "exists_all_keys/path_exists",
     "parse_json_path(parens)",
     "parse_json_path(nested-filters)",
     "parse_json_path(long)",
@@ -54,6 +61,9 @@ pub fn known_floor(entry: &str) -> Option<usize> {
         "to_serde_json" => 10_000,
         "delete_by_keypath" => 100_000,
         "concat" => 100_000,
+        "compare(text,text)" => 10_000,
+        "parse_lazy_value/to_value" => 10_000,
+        "to_serde_json_object" => 10_000,
         "parse_json_path(parens)" => 10_000,
         "parse_json_path(nested-filters)" => 10_000,
         _ => return None,
@@ -299,6 +309,70 @@ fn run_cell(entry: &str, shape: &str, depth: usize) -> &'static str {
             let b = deep_jsonb(shape, depth, 2);
             let mut o = Vec::new();
             oe(&jsonb::concat(&a, &b, &mut o))
+        }
+        "array_values/object_each/object_keys" => {
+            let a = deep_jsonb(shape, depth, 1);
+            let n = jsonb::array_values(&a).map(|v| v.len()).unwrap_or(0) + jsonb::object_each(&a).map(|v| v.len()).unwrap_or(0) + jsonb::object_keys(&a).map(|v| v.len()).unwrap_or(0);
+            if n > 0 {
+                "ok"
+            } else {
+                "err"
+            }
+        }
+        "type_of/array_length/get_by_index/get_by_name" => {
+            let a = deep_jsonb(shape, depth, 1);
+            let ok = jsonb::type_of(&a).is_ok() && (jsonb::array_length(&a).is_some() || jsonb::get_by_name(&a, "a", false).is_some()) && (jsonb::get_by_index(&a, 0).is_some() || jsonb::is_object(&a));
+            if ok {
+                "ok"
+            } else {
+                "err"
+            }
+        }
+        "array_distinct/array_insert/object_insert" => {
+            let a = deep_jsonb(shape, depth, 1);
+            let mut o = Vec::new();
+            let r1 = jsonb::array_distinct(&a, &mut o).is_ok();
+            let r2 = jsonb::array_insert(&a, 0, &a, &mut o).is_ok();
+            let _ = jsonb::object_insert(&a, "zz", &a, true, &mut o);
+            if r1 && r2 {
+                "ok"
+            } else {
+                "err"
+            }
+        }
+        "compare(text,text)" => {
+            let a = deep_text(shape, depth);
+            let mut b = a.clone();
+            let mid = b.len() / 2;
+            b[mid] = b'2';
+            oe(&jsonb::compare(&a, &b))
+        }
+        "parse_lazy_value/to_value" => {
+            let t = deep_text(shape, depth);
+            let r = jsonb::parse_lazy_value(&t);
+            let o = oe(&r);
+            if let Ok(lv) = &r {
+                let v = lv.to_vec();
+                std::mem::forget(v);
+            }
+            std::mem::forget(r);
+            o
+        }
+        "to_serde_json_object" => {
+            let a = deep_jsonb(shape, depth, 1);
+            let r = jsonb::to_serde_json_object(&a);
+            let o = oe(&r);
+            std::mem::forget(r);
+            o
+        }
+        "exists_all_keys/path_exists" => {
+            let a = deep_jsonb(shape, depth, 1);
+            let keys: Vec<&[u8]> = vec![b"a"];
+            let _ = jsonb::exists_all_keys(&a, keys.into_iter());
+            match jsonb::jsonpath::parse_json_path(&deep_path(shape, depth)) {
+                Ok(p) => oe(&jsonb::path_exists(&a, p)),
+                Err(_) => "err",
+            }
         }
         "parse_json_path(parens)" => {
             let mut s = b"$ ? (".to_vec();
